@@ -1071,3 +1071,8 @@ def run(ctx):
     r13_integer_results_of_builtins_fit(ctx)
     r14_floats_from_outside_are_finite(ctx)
     r15_payload_written_in_place(ctx)
+    # a by-reference argument gets back the value its own parameter held (of its own type, C12.R4): the pending
+    # write-backs of a call are not mixed up with those of a call made while they are written back
+    from . import c03
+    c03.r9_queue_not_reentered(ctx, "C06.R16")
+    c03.r3_fifo(ctx, "C06.R16")
